@@ -658,8 +658,62 @@ def run_dict_valued(ctx, i, rng):
       ctx.event('note.dict_valued:returned_tree_shares_dict_with_argument')
 
 
+def run_nested_apply(ctx, i, rng):
+  """A module method that itself calls another module's init/apply (functional use inside a module): the inner call is a call of its
+  own - an observation feature switched on for the OUTER call (capture_intermediates, a mutable intermediates collection) must not
+  change what the inner call returns, so the outer primary output stays the same."""
+  import jax
+  import jax.numpy as jnp
+  import flax.linen as nn
+  from flax.core import unfreeze
+  inner_mut = [True, ['intermediates'], nn.DenyList(['params']), False, ['state']][i % 5]
+  via = ['apply', 'init_with_output'][(i // 5) % 2]
+  if via == 'init_with_output' and i % 5 in (1, 2, 3, 4):
+    via = 'apply'   # init needs the collections it creates to be mutable
+  outer_capture = [True, (lambda m, n: True), False][(i // 10) % 3]
+  desc = dict(inner_mutable=repr(inner_mut), inner_call=via, outer_capture=repr(outer_capture)[:30])
+  with ctx.case('nested_apply', i, desc, nontrivial=True):
+    class Inner(nn.Module):
+      @nn.compact
+      def __call__(self, x):
+        h = nn.Dense(2, name='d')(x)
+        n = self.variable('state', 'n', lambda: jnp.zeros(()))
+        if self.is_mutable_collection('state'):
+          n.value = n.value + 1.0
+        return jnp.tanh(h)
+
+    inner = Inner()
+    x = jnp.asarray(np.random.default_rng(i).uniform(-1, 1, (2, 3)).astype(np.float32))
+    iv = unfreeze(inner.init(jax.random.key(i), x))
+
+    class Outer(nn.Module):
+      @nn.compact
+      def __call__(self, x):
+        h = nn.Dense(3, name='pre')(x)
+        if via == 'apply':
+          out = inner.apply(iv, h, mutable=inner_mut)
+        else:
+          out = inner.init_with_output(jax.random.key(1), h, mutable=inner_mut)
+        y, st = out if isinstance(out, tuple) else (out, {})
+        # the inner call's returned collections are part of what the outer module computes
+        sizes = jnp.asarray([float(len(jax.tree_util.tree_leaves(st.get(c, {})))) for c in ('params', 'state', 'intermediates')])
+        return y, sizes
+
+    outer = Outer()
+    ov = outer.init(jax.random.key(7), x)
+    base = outer.apply(ov, x)
+    obs = outer.apply(ov, x, capture_intermediates=outer_capture, mutable=['intermediates'])[0]
+    obs2 = outer.apply(ov, x, mutable=['intermediates'])[0]
+    ctx.op('apply(capture_intermediates) around a nested %s' % via)
+    ok = tree_bytes_equal(base, obs) and tree_bytes_equal(base, obs2)
+    ctx.check(ok, 'observation_inert:nested_call_inherits_capture', lambda: dict(case=desc, plain=np.asarray(base[1]).tolist(), observed=np.asarray(obs[1]).tolist()))
+    ctx.check(tree_bytes_equal(outer.apply(ov, x), base), 'deterministic:nested_apply', lambda: dict(case=desc))
+
+
 def run(ctx):
   log = PutLog(ctx)
+  for i in ctx.indices(30, 'nested_apply'):
+    run_nested_apply(ctx, i, ctx.rng('nested_apply', i))
   for i in ctx.indices(48, 'dict_valued'):
     run_dict_valued(ctx, i, ctx.rng('dict_valued', i))
   for i in ctx.indices(60 if ctx.tier == 'quick' else 600, 'bound'):
